@@ -1,5 +1,6 @@
 import GnoVerif.Proofs.C04Shift
 import GnoVerif.Proofs.C04Fold
+import GnoVerif.Proofs.C04Mono
 import GnoVerif.Proofs.C04Slice
 import GnoVerif.Model.C04Known
 import GnoVerif.Model.C04Line
@@ -171,6 +172,17 @@ theorem const_value_fuel_independent_partial (P : Program) (e : Expr) (v : Val) 
 
 example : constVal (.bin (.ar .add) (.lit (.int .i8 100)) (.lit (.int .i8 100))) = some (.int .i8 (-56)) := by
   rfl
+
+/-- more fuel never changes a finished evaluation, for every call-free scalar expression
+(literals, variables, constant expressions, all unary / binary operators, `&&` `||`, conversions,
+boxing, `len` / `cap`, field selection, dereference) in every context and store — the part of
+`fuel_monotone_statement` that is proved; calls, statements, loops and composite construction
+are not covered -/
+theorem simple_expr_fuel_monotone_partial (P : Program) (n : Nat) (e : Expr) (ctx : Ctx) (s : St)
+    (hs : simpleExpr e = true) (h : (evalE P n ctx e s).isOof = false) :
+    evalE P (n + 1) ctx e s = evalE P n ctx e s := simple_fuel_mono P n e ctx s hs h
+
+example : simpleExpr (.bin (.ar .quo) (.var "x") (.un .neg (.conv (.int .i8) (.var "y")))) = true := by rfl
 
 /-- a constant whose evaluation would panic is NOT folded away: `1 / 0` stays for run time -/
 theorem const_panic_not_folded :
